@@ -32,6 +32,9 @@ structure VS where
   xrows : Int := 23
   xcols : Int := 80
   xai : Bool := true
+  xkmap : Nat := 0             -- `xkmap`: keymap of insert mode, searches and f/t/r
+  exKmap : Nat := 0            -- the keymap of the `:` prompt (a local of vi())
+  xkmapAlt : Nat := 1
   unmodelled : Bool := false
 
 inductive Res (α : Type) where
@@ -200,14 +203,26 @@ def lastWord (s : Bytes) : Nat :=
 def isBlankC (c : Nat) : Bool := c == 32 || c == 9
 
 /-! ### led.c: reading a line -/
-/-- `led_readchar(c, kmap)` for the default keymap, as the C string it returns -/
-def readCharS (c : Int) : M (Option Bytes) := do
+/-- `kmap_map(kmap, c)`: the keymap's text for the key, else the key itself (as a C string) -/
+def kmapMap (kmap : Nat) (c : Nat) : Bytes :=
+  if c % 256 == 0 then [] else      -- entry 0 of a keymap is its name, not a mapping
+  match ((Gen.kmaps.getD kmap []).find? (fun e => e.1 == c)) with
+  | some e => e.2
+  | none => [c % 256]
+
+/-- `led_readchar(c, kmap)`, as the C string it returns (`none` = NULL) -/
+def readCharS (c : Int) (kmap : Nat) : M (Option Bytes) := do
   if c == 22 then
     let d ← termRead
     pure (some (if d.toNat % 256 == 0 then [] else [d.toNat % 256]))
   else if c == 11 then do
-    unmodelled
-    pure none
+    let c1 ← termRead
+    if tkInt c1 then pure none
+    else if c1 == 11 then pure (some [])
+    else
+      let c2 ← termRead
+      if tkInt c2 then pure none
+      else pure ((Gen.digraphs.find? (fun d => d.1.headD 0 == c1.toNat && d.1.getD 1 0 == c2.toNat)).map (·.2))
   else if c ≥ 192 then
     let n := ucLen c.toNat
     let rec more : Nat → Bytes → M Bytes
@@ -217,7 +232,7 @@ def readCharS (c : Int) : M (Option Bytes) := do
         more k (acc ++ [d.toNat % 256])
     let bs ← more (n - 1) [c.toNat]
     pure (some (bs.takeWhile (· != 0)))
-  else pure (some (if c.toNat % 256 == 0 then [] else [c.toNat % 256]))
+  else pure (some (kmapMap kmap c.toNat))
 
 /-- the `*left` update of `led_printparts(ai, pref, main, post, left, ..)` -/
 def ledLeft (s : VS) (ai pref main post : Bytes) (left : Int) : Int :=
@@ -231,8 +246,12 @@ def ledLeft (s : VS) (ai pref main post : Bytes) (left : Int) : Int :=
 
 /-- `led_line(pref, post, ai, ai_max, left, ..)` without history: (text, terminating key, ai).
 `insertMode`: called from `led_input` (then `*left` is `xleft` and `help` is set). -/
-def ledLine (pref post : Bytes) (ai0 : Bytes) (aiMax : Nat) (insertMode : Bool) : M (Bytes × Int × Bytes) := do
+def ledLine (pref post : Bytes) (ai0 : Bytes) (aiMax : Nat) (insertMode : Bool) (exPrompt : Bool := false) : M (Bytes × Int × Bytes) := do
   let prefEmpty := pref.isEmpty
+  let setKmap (k : Option Nat) : M Unit := modify fun s =>
+    let v := match k with | some v => v | none => s.xkmapAlt
+    if exPrompt then { s with exKmap := v } else { s with xkmap := v }
+  let getKmap : M Nat := fun s => Res.ok (if exPrompt then s.exKmap else s.xkmap) s
   let redraw (ai sb post : Bytes) : M Unit :=
     if insertMode then modify fun s => { s with ed := { s.ed with xleft := ledLeft s ai pref sb post s.ed.xleft } } else pure ()
   let rec go : Nat → Bytes → Bytes → Int → M (Bytes × Int × Bytes)
@@ -240,8 +259,8 @@ def ledLine (pref post : Bytes) (ai0 : Bytes) (aiMax : Nat) (insertMode : Bool) 
     | f + 1, sb, ai, c1 => do
       redraw ai sb post
       let c ← termRead
-      if c == 6 then do unmodelled; go f sb ai c1            -- ^F: alternate keymap
-      else if c == 5 then go f sb ai c1
+      if c == 6 then do setKmap none; go f sb ai c1            -- ^F: alternate keymap
+      else if c == 5 then do setKmap (some 0); go f sb ai c1
       else if c == 8 || c == 127 then go f (if sb.isEmpty then sb else sb.take (lastChar sb)) ai c
       else if c == 21 then go f [] ai c
       else if c == 23 then go f (if sb.isEmpty then sb else sb.take (lastWord sb)) ai c
@@ -264,14 +283,14 @@ def ledLine (pref post : Bytes) (ai0 : Bytes) (aiMax : Nat) (insertMode : Bool) 
         pure (sb, c, ai)
       else if tkInt c then pure (sb, c, ai)
       else do
-        match ← readCharS c with
+        match ← readCharS c (← getKmap) with
         | some cs => go f (sb ++ cs) ai c
         | none => go f sb ai c
   go 100000 [] ai0 0
 
 /-- `led_prompt(pref, "", ..)` minus the prefix (`vi_prompt`): `none` when interrupted -/
-def viPrompt : M (Option Bytes) := do
-  let (txt, key, _) ← ledLine [58] [] [] 0 false
+def viPrompt (exPrompt : Bool := false) : M (Option Bytes) := do
+  let (txt, key, _) ← ledLine [58] [] [] 0 false exPrompt
   if key == 10 then pure (some txt) else pure none
 
 
@@ -282,9 +301,9 @@ def viChar : M (Option Bytes) := do
     | f + 1 => do
       let c ← termRead
       if tkInt c then pure none
-      else if c == 6 then do unmodelled; go f
-      else if c == 5 then go f        -- ^F / ^E switch keymaps
-      else readCharS c
+      else if c == 6 then do modify (fun s => { s with xkmap := s.xkmapAlt }); go f
+      else if c == 5 then do modify (fun s => { s with xkmap := 0 }); go f        -- ^F / ^E switch keymaps
+      else do readCharS c (← get).xkmap
   go 64
 
 
@@ -357,7 +376,7 @@ def viMotionln (row : Int) (cmd : Int) : M (Int × Int) := do
   else if c == 72 then fin (min (s.ed.xtop + cnt - 1) (n - 1))
   else if c == 76 then fin (min (s.ed.xtop + s.xrows - 1 - cnt + 1) (n - 1))
   else if c == 77 then fin (min (s.ed.xtop + s.xrows / 2) (n - 1))
-  else if c == cmd && cmd != 0 then fin (min (row + cnt - 1) (n - 1))
+  else if c == cmd then fin (min (row + cnt - 1) (n - 1))      -- also a NUL key at top level (cmd = 0)
   else if c == 37 && (s.arg1 != 0 || s.arg2 != 0) then
     if cnt > 100 then pure (-1, row) else fin ((max 0 (n - 1)) * cnt / 100)
   else do
@@ -390,6 +409,7 @@ def viMotion (row off : Int) : M (Int × Int × Int) := do
   let dir : Int := if dirCtx s0 ((lineOf s0 row).getD []) ≥ 0 then 1 else -1
   let (mvl, r1) ← viMotionln row 0
   if mvl != 0 then pure (mvl, r1, -1) else
+  let row := r1          -- a NUL key is taken by vi_motionln (c == cmd == 0): it moves *row and returns 0
   let mv ← viRead
   let s ← get
   let ls := lines s
